@@ -23,20 +23,27 @@ Record segstat := { ss_status : dict Z;            (* segment seq -> status code
 Record entry := { e_at : Q; e_msg : smsg; e_id : Z }.
 
 Record corr := { c_store : dict entry;            (* _store: seq -> (stored_at, message) *)
-                 c_seg : dict (Z * Z);            (* _segment_store: seq -> (ref, segment seq) *)
-                 c_stat : dict segstat;           (* _segment_status_store: ref -> SegmentStatus *)
+                 c_seg : dict (Z * Z);            (* _segment_store: seq -> (status key, segment seq) *)
+                 c_stat : dict segstat;           (* _segment_status_store: status key -> SegmentStatus *)
+                 c_cur : dict Z;                  (* _status_keys: reference -> status key of the message being sent under it *)
                  c_ttl : Q }.                     (* max_ttl_response *)
 
-Definition corr_init (ttl : Q) : corr := {| c_store := []; c_seg := []; c_stat := []; c_ttl := ttl |}.
+(* the status key 'ref/seq' of a message: its reference combined with the sequence number of its first stored segment
+   (fix of the shared status cell of two messages with the same 8-bit reference); injective for references below 65536 *)
+Definition skey (ref seq : Z) : Z := ref + 65536 * (seq + 1).
+
+Definition corr_init (ttl : Q) : corr := {| c_store := []; c_seg := []; c_stat := []; c_cur := []; c_ttl := ttl |}.
 
 Definition is_submit (m : smsg) : bool := sm_cmd m =? SmppCommand_SUBMIT_SM.
 
 Definition with_store (c : corr) (s : dict entry) : corr :=
-  {| c_store := s; c_seg := c_seg c; c_stat := c_stat c; c_ttl := c_ttl c |}.
+  {| c_store := s; c_seg := c_seg c; c_stat := c_stat c; c_cur := c_cur c; c_ttl := c_ttl c |}.
 Definition with_seg (c : corr) (s : dict (Z * Z)) : corr :=
-  {| c_store := c_store c; c_seg := s; c_stat := c_stat c; c_ttl := c_ttl c |}.
+  {| c_store := c_store c; c_seg := s; c_stat := c_stat c; c_cur := c_cur c; c_ttl := c_ttl c |}.
 Definition with_stat (c : corr) (s : dict segstat) : corr :=
-  {| c_store := c_store c; c_seg := c_seg c; c_stat := s; c_ttl := c_ttl c |}.
+  {| c_store := c_store c; c_seg := c_seg c; c_stat := s; c_cur := c_cur c; c_ttl := c_ttl c |}.
+Definition with_cur (c : corr) (s : dict Z) : corr :=
+  {| c_store := c_store c; c_seg := c_seg c; c_stat := c_stat c; c_cur := s; c_ttl := c_ttl c |}.
 
 Definition set_status (ss : segstat) (k v : Z) : segstat :=
   {| ss_status := dset (ss_status ss) k v; ss_orig := ss_orig ss; ss_last_resp := ss_last_resp ss; ss_last_rcpt := ss_last_rcpt ss |}.
@@ -104,16 +111,20 @@ Definition put_store (c : corr) (now : Q) (m : smsg) (eid : Z) : corr :=
   if is_submit m then
     let '(ref, sseq, total) := sm_sar m in
     if 0 <? total then
-      let c2 := with_seg c1 (dset (c_seg c1) (sm_seq m) (ref, sseq)) in
       let fresh := {| ss_status := map (fun i => (Z.of_nat i, STATUS_SENDING)) (seq 1 (Z.to_nat total));
                       ss_orig := m; ss_last_resp := None; ss_last_rcpt := None |} in
-      (* the first segment of a message starts a new status: the 8-bit reference may be re-used *)
-      let ss := match (if 1 <? sseq then dget ref (c_stat c2) else None) with
-                | Some ss => ss
-                | None => fresh (* {| ss_status := map (fun i => (Z.of_nat i, STATUS_SENDING)) (seq 1 (Z.to_nat total));
-                             ss_orig := m; ss_last_resp := None; ss_last_rcpt := None |} *)
-                end in
-      with_stat c2 (dset (c_stat c2) ref (set_status ss sseq STATUS_SENDING))
+      (* a later segment joins the status of the message being sent under its reference; the first segment starts a new one *)
+      let joined := if 1 <? sseq
+                    then match dget ref (c_cur c1) with
+                         | Some k => match dget k (c_stat c1) with Some ss => Some (k, ss) | None => None end
+                         | None => None
+                         end
+                    else None in
+      let key := match joined with Some (k, _) => k | None => skey ref (sm_seq m) end in
+      let ss := match joined with Some (_, ss) => ss | None => fresh end in
+      let cur' := match joined with Some _ => c_cur c1 | None => dset (c_cur c1) ref (skey ref (sm_seq m)) end in
+      let c2 := with_cur (with_seg c1 (dset (c_seg c1) (sm_seq m) (key, sseq))) cur' in
+      with_stat c2 (dset (c_stat c2) key (set_status ss sseq STATUS_SENDING))
     else c1
   else c1.
 
